@@ -40,6 +40,10 @@ def gen_bash(rng):
         return ("printf '%%s' %s" % u, u, 'nonl')
     if r < 0.38:
         return ('true', '', 'empty')
+    if r < 0.42:
+        # several complete commands on separate lines: each prints when its own line is entered
+        v, w = uid(rng), uid(rng)
+        return ('echo %s\necho %s\nprintf %%s %s' % (u, v, w), '%s\r\n%s\r\n%s' % (u, v, w), 'multiline')
     if r < 0.48:
         n = rng.choice([3, 50, 2000]) if rng.random() < 0.8 else rng.choice([15000, 45000])
         return ('seq 1 %d' % n, ''.join('%d\r\n' % i for i in range(1, n + 1)), 'large' if n >= 15000 else 'plain')
@@ -71,6 +75,9 @@ def gen_py(rng):
         return ("print('%s')" % u, u + '\r\n', 'plain')
     if r < 0.3:
         return ('x%s = %d' % (u, rng.randint(0, 99)), '', 'empty')
+    if r < 0.34:
+        v = uid(rng)
+        return ("print('%s')\nprint('%s')\n1+1" % (u, v), '%s\r\n%s\r\n2\r\n' % (u, v), 'multiline')
     if r < 0.4:
         a, b = rng.randint(0, 10 ** 6), rng.randint(0, 10 ** 6)
         return ('%d+%d' % (a, b), '%d\r\n' % (a + b), 'plain')
@@ -136,6 +143,17 @@ def one(case, acc):
             where = '%s%s command #%d %r (%s)' % (shell, ' async' if case['async'] else '', k, cmd[:60], kind)
             if kind == 'incomplete':
                 acc.count('incomplete_inputs')
+                if isinstance(exc, pexpect.TIMEOUT) and ret is None:
+                    # replwrap waits a hard-coded 1 s for the prompt after cancelling; on a loaded machine the
+                    # REPL may answer later.  A wall-clock limit inside the subject is not a verdict: look whether
+                    # the cancelled REPL comes back at all.
+                    try:
+                        repl.child.expect_exact([repl.prompt], timeout=30)
+                        acc.count('cancel_slower_than_hardcoded_1s')
+                        acc.inconc('%s: prompt after cancel arrived later than replwrap\'s hard-coded 1 s' % where)
+                        return
+                    except Exception:
+                        pass
                 if not isinstance(exc, ValueError):
                     acc.violation('incomplete-input-not-ValueError', '%s: returned %r raised %r' % (where, short(ret), exc), case)
                     return
